@@ -3873,7 +3873,7 @@ static PyObject *direct_newp(CTypeDescrObject *ct, PyObject *init,
                 assert(ct->ct_flags & CT_IS_PTR_TO_OWNED);
                 dataoffset = offsetof(CDataObject_own_length, alignment);
 
-                if (init != Py_None) {
+                if (init != Py_None && !CData_Check(init)) {
                     Py_ssize_t optvarsize = datasize;
                     if (convert_struct_from_object(NULL, ctitem, init,
                                                    &optvarsize) < 0)
